@@ -193,6 +193,8 @@ def gen_c04(r, tier):
             a['storage_fault'] = dict(gen_storage_fault(r, None),
                                       target=list(t))
             del a['storage_fault']['op']
+            if tier == 'thorough' and r.chance(0.4):
+                a['storage_fault']['enumerate'] = True
         ops.append(a)
     return {'config': {'clients': clients, 'tmp_dir_configured': True},
             'ops': ops}
@@ -353,6 +355,8 @@ def gen_c10(r, tier):
                                                'short_write']),
                                'site': r.randint(0, 3),
                                'short': r.randint(0, 12)}
+                if tier == 'thorough' and r.chance(0.5):
+                    op['fault']['enumerate'] = True
             elif r.chance(0.1):
                 op['read_fault'] = {'kind': 'read_eio'}
             ops.append(op)
@@ -833,10 +837,14 @@ def run_assert(ctx, op):
     # storage fault between write and check
     sf = op.get('storage_fault')
     sf_fired = False
+    pristine = None
     if sf:
         which, j = sf['target']
         target = (rpaths if which == 'ref' else apaths)
         if j < len(target):
+            if sf.get('enumerate') and os.path.exists(target[j]):
+                with io.open(target[j], 'rb') as fh:
+                    pristine = (target[j], fh.read())
             sf_fired = apply_storage_fault(ctx, sf, target[j])
     mode = ctx.model.lookup(op['kind'])
     roots = [W.path(d) for d in ('ref', 'fail', 'systmp', 'cwd', 'canary',
@@ -881,11 +889,67 @@ def run_assert(ctx, op):
     if prop == 'C10':
         check_c10(ctx, op, mode, outcome, exc, delta, log, fired, rpaths,
                   apaths, before, after)
+        if mode is False and (op.get('fault') or {}).get('enumerate'):
+            enumerate_fault_sites(ctx, op, rpaths, apaths, len(log))
     elif prop == 'C04':
         check_c04(ctx, op, outcome, exc, rpaths, apaths, sf_fired)
+        if pristine is not None and sf['kind'] in ('flip_char', 'drop_line',
+                                                  'dup_line'):
+            # thorough tier: the same single-line fault at every line
+            path, data = pristine
+            nlines = max(1, len(data.splitlines()))
+            for k in range(min(nlines, 12)):
+                with io.open(path, 'wb') as fh:
+                    fh.write(data)
+                sf2 = dict(sf, pos=(k + 0.5) / nlines)
+                if sf['kind'] == 'flip_char':
+                    # a position inside line k
+                    ls = data.decode('utf-8', 'replace').splitlines(True)
+                    off = sum(len(x) for x in ls[:k])
+                    tot = max(1, len(data.decode('utf-8', 'replace')))
+                    sf2['pos'] = (off + 0.3 * max(1, len(ls[k]) - 1)) / tot \
+                        if k < len(ls) else 0.0
+                fired = apply_storage_fault(ctx, sf2, path)
+                ctx.seam.begin_op(None, None)
+                o2, e2 = call_assert(ctx, op, rpaths, apaths)
+                ctx.stats['checks']['fault_positions_enumerated'] += 1
+                check_c04(ctx, op, o2, e2, rpaths, apaths, fired)
     elif prop == 'C15':
         check_c15(ctx, op, mode, outcome, exc, delta, log, rpaths, apaths,
                   before, after)
+
+
+def enumerate_fault_sites(ctx, op, rpaths, apaths, nsites):
+    """Thorough tier: the same normal-mode assertion again with an I/O
+    error at *every* write site it has (not just the sampled one); the
+    reference store must stay untouched each time."""
+    W = ctx.W
+    refroot = W.path('ref')
+    f0 = op['fault']
+    for site in range(min(nsites + 1, 8)):
+        before = fsaudit.snapshot([refroot])
+        fault = {'kind': f0['kind'], 'site': site,
+                 'errno': ERRNO[f0['kind']],
+                 'short': f0['short'] if f0['kind'] == 'short_write'
+                 else None}
+        ctx.seam.begin_op(fault, None)
+        outcome, exc = call_assert(ctx, op, rpaths, apaths)
+        fired = list(ctx.seam.fired)
+        ctx.seam.begin_op(None, None)
+        after = fsaudit.snapshot([refroot])
+        d = fsaudit.diff(before, after)
+        ctx.stats['checks']['fault_sites_enumerated'] += 1
+        for f in fired:
+            ctx.stats['faults'][f[0]] += 1
+        if d:
+            violation(ctx, op, 'ref-untouched',
+                      'normal-mode-%s/%s/%s/fault-%s-enumerated' % (
+                          '+'.join(sorted({c for _, c in d})),
+                          op['op'][7:], outcome, f0['kind']),
+                      'normal-mode assertion with %s at write site %d '
+                      'changed the reference store: %r'
+                      % (f0['kind'], site, [(W.rel(p), c) for p, c in d]))
+            return
 
 
 # --------------------------------------------------------------------------
